@@ -91,10 +91,19 @@ func SocketFns(p *Program) []*SocketFn {
 			}
 		}
 		sf.Paths = w.Walk(fn, args, nil)
+		opensOnSomePath := false
 		for _, pa := range sf.Paths {
 			if pa.Outcome == "truncated" {
 				sf.Trunc++
 			}
+			for _, e := range pa.Events {
+				if e.Kind == "call" && isOpenCall(e.Name) {
+					opensOnSomePath = true
+				}
+			}
+		}
+		if !opensOnSomePath {
+			continue // mentions an opener as a value (installs it as the default of a seam) without calling it
 		}
 		out = append(out, sf)
 	}
@@ -124,7 +133,9 @@ func connOf(pa Path) (conn string, openIdx int, ok bool) {
 			c1 := e.Result.String() + "#1"
 			errNil, okE := pa.State.Bools["isnil("+c1+")"]
 			connNil, okC := pa.State.Bools["isnil("+c0+")"]
-			if okE && errNil && okC && !connNil {
+			// opened: the error is nil and the connection is not known to be nil (a missing nil test, or a concrete
+			// connection wrapped into the net.Conn interface, leaves no atom: the socket is open all the same)
+			if okE && errNil && (!okC || !connNil) {
 				return c0, i, true
 			}
 			return c0, i, false
@@ -353,6 +364,28 @@ func RuleTransport(r *Report, p *Program, rules aspectSet) {
 			}
 			// a stream connection is established by a blocking connect: connect and exchange share ONE budget, so the
 			// instant that bounds the dial (Dialer.Deadline) is the instant of the read deadline (one clock reading)
+			// a stream connect that no deadline bounds at all (net.DialTCP, net.Dial; a Dialer without Deadline or
+			// Timeout) waits for the kernel's SYN retries when the peer is silent
+			if sf.IsDial && openIdx >= 0 && len(pa.Events[openIdx].Args) >= 1 && t2 == "" {
+				oe := pa.Events[openIdx]
+				nwArg := 0
+				if strings.HasPrefix(oe.Name, "(*net.Dialer).") {
+					nwArg = 1
+				}
+				if nwArg < len(oe.Args) {
+					if nw, ok := oe.Args[nwArg].StrVal(); ok && strings.HasPrefix(nw, "tcp") {
+						switch {
+						case oe.Name == "net.DialTCP" || oe.Name == "net.Dial":
+							t2 = "the TCP connection is opened with " + oe.Name + ", which no deadline bounds: with a peer that drops the SYN the call lasts as long as the kernel retries"
+						case strings.HasPrefix(oe.Name, "(*net.Dialer).") && len(oe.Deep) > 0:
+							dl, to := deepField(oe.Deep[0], "Deadline"), deepField(oe.Deep[0], "Timeout")
+							if (dl == "zero" || dl == "" || dl == oe.Deep[0]) && (to == "0" || to == "zero" || to == "" || to == oe.Deep[0]) {
+								t2 = "the TCP connect is not bounded: the dialer has neither a deadline nor a timeout"
+							}
+						}
+					}
+				}
+			}
 			if sf.IsDial && len(pa.Events[openIdx].Args) >= 2 && len(reads) > 0 && t2 == "" {
 				if nw, ok := pa.Events[openIdx].Args[1].StrVal(); ok && strings.HasPrefix(nw, "tcp") {
 					dl := deepField(pa.Events[openIdx].Deep[0], "Deadline")
@@ -435,6 +468,22 @@ func RuleTransport(r *Report, p *Program, rules aspectSet) {
 					t11 = "the returned reply is not buffer[0:n] of the last read: " + cut(res.String(), 100)
 				}
 			}
+			// ---- T11 (continued): nothing writes the receive buffer between the read and the return
+			if len(reads) > 0 {
+				last := pa.Events[reads[len(reads)-1]]
+				var bufCell *Cell
+				if len(last.Args) >= 2 {
+					bufCell = cellOfTerm(last.Args[1])
+				}
+				if bufCell != nil {
+					for i := reads[len(reads)-1] + 1; i < len(pa.Events); i++ {
+						e := pa.Events[i]
+						if (e.Kind == "store" || e.Kind == "append" || e.Kind == "copy") && len(e.Args) > 0 && cellOfTerm(e.Args[0]) == bufCell {
+							t11 = "the receive buffer is written (" + e.Kind + " at " + p.Pos(e.Pos) + ") after the read: the bytes returned are not the bytes received"
+						}
+					}
+				}
+			}
 			// ---- RQ the request is read-only
 			for _, e := range pa.Events {
 				target := ""
@@ -451,6 +500,40 @@ func RuleTransport(r *Report, p *Program, rules aspectSet) {
 				target = strings.TrimPrefix(target, "&")
 				if target == "request" || strings.HasPrefix(target, "request[") || strings.HasPrefix(target, "request.") {
 					rq = "the request bytes are modified (" + e.Kind + " at " + p.Pos(e.Pos) + "): what goes on the wire is no longer what was marshalled"
+				}
+				// handed to a function outside the module that is not known to only read its argument (the slices
+				// package edits in place: Replace, Insert, Delete, Reverse, Sort ...)
+				if e.Kind == "call" && !isWriteCall(e) && !isReadCall(e) {
+					for _, a := range e.Args {
+						if a == nil {
+							continue
+						}
+						as := strings.TrimPrefix(a.String(), "&")
+						if !(as == "request" || strings.HasPrefix(as, "request[")) || a.Typ == nil || !isByteSlice(a.Typ) {
+							continue
+						}
+						nm := e.Name
+						readOnly := strings.HasPrefix(nm, "fmt.") || strings.HasPrefix(nm, "hex.") || strings.HasPrefix(nm, "bytes.Equal") || strings.HasPrefix(nm, "bytes.Compare") ||
+							strings.HasPrefix(nm, "bytes.HasPrefix") || strings.HasPrefix(nm, "bytes.Contains") || strings.HasPrefix(nm, "bytes.Clone") || strings.HasPrefix(nm, "slices.Clone") ||
+							strings.HasPrefix(nm, "slices.Equal") || strings.HasPrefix(nm, "slices.Contains") || strings.HasPrefix(nm, "slices.Index") || strings.HasPrefix(nm, "codec.") ||
+							strings.HasPrefix(nm, "(binary.") || strings.Contains(nm, ".debugf") || strings.HasPrefix(nm, "string")
+						if ci, ok := e.Instr.(ssa.CallInstruction); ok {
+							if f := ci.Common().StaticCallee(); f != nil && inModule(f) {
+								readOnly = true // walked in line, or covered by its own stores
+								for i, x := range ci.Common().Args {
+									if i < len(f.Params) && mutatesParam(f, i, 0) {
+										if xs := strings.TrimPrefix(a.String(), "&"); xs != "" && i < len(e.Args) && e.Args[i] == a {
+											readOnly = false
+										}
+										_ = x
+									}
+								}
+							}
+						}
+						if !readOnly {
+							rq = "the request bytes are handed to " + nm + " at " + p.Pos(e.Pos) + ", which is not known to leave them unchanged"
+						}
+					}
 				}
 			}
 			// ---- T9 ownership, T10 buffers
@@ -1233,6 +1316,7 @@ func rw(w bool) string {
 // RB: every buffer handed to a socket read can hold more than one protocol message, so an over-long
 // datagram is seen as over-long instead of being truncated to a well-formed length.
 func RuleReadBuffers(r *Report, p *Program) {
+	var rbPaths []*SocketFn
 	r.Rule("RB", "every receive buffer handed to a socket read is larger than the 64-byte message, so over-long datagrams stay recognisable", 5)
 	// one obligation per socket function: it reaches a socket read (whose buffer is checked below, wherever it
 	// lives: in the function, in a goroutine it starts or in a helper shared with its siblings)
@@ -1272,6 +1356,45 @@ func RuleReadBuffers(r *Report, p *Program) {
 				}
 				n, known := sliceLenOf(buf)
 				key := calleeName(fn) + ":" + name
+				if !known {
+					// the size is not a constant of the source (an option with a default, a named setting): take it
+					// from the walks of the socket functions - the buffer handed to THIS read on every path
+					if rbPaths == nil {
+						rbPaths = SocketFns(p)
+					}
+					least := int64(-1)
+					all := true
+					for _, sf := range rbPaths {
+						var scan func(evs []Event)
+						scan = func(evs []Event) {
+							for _, e := range evs {
+								if e.Instr != in || e.Kind != "call" {
+									continue
+								}
+								found := false
+								for _, a := range e.Args {
+									if a != nil && a.Op == "sref" && a.Typ != nil && isByteSlice(a.Typ) {
+										lo, _ := a.Args[0].Int64()
+										hi, _ := a.Args[1].Int64()
+										if least < 0 || hi-lo < least {
+											least = hi - lo
+										}
+										found = true
+									}
+								}
+								if !found {
+									all = false
+								}
+							}
+						}
+						for _, pa := range sf.Paths {
+							scan(pa.Events)
+						}
+					}
+					if all && least >= 0 {
+						n, known = least, true
+					}
+				}
 				switch {
 				case !known:
 					r.Bad("RB", key, p.Pos(in.Pos()), "the size of the receive buffer cannot be determined")
@@ -1346,4 +1469,19 @@ func closureCaptures(clos *Term, what string) bool {
 		}
 	}
 	return false
+}
+
+// cellOfTerm: the storage a slice- or pointer-valued term refers to (through re-slicing).
+func cellOfTerm(t *Term) *Cell {
+	for i := 0; i < 6 && t != nil; i++ {
+		switch t.Op {
+		case "sref", "ptr":
+			return t.Cell
+		case "slice":
+			t = t.Args[0]
+		default:
+			return nil
+		}
+	}
+	return nil
 }
